@@ -143,6 +143,15 @@ def shape(doc_text):
     return walk(root, doc_text), notes
 
 
+def claims_encrypted(doc_text):
+    """does anything in the message claim to be encrypted: an EncryptedAssertion / EncryptedData / EncryptedKey
+    element at any depth (whatever it contains)"""
+    for el in ET.fromstring(doc_text).iter():
+        if local(el.tag) in ("EncryptedAssertion", "EncryptedData", "EncryptedKey", "EncryptedID", "EncryptedAttribute"):
+            return True
+    return False
+
+
 def spellings(s):
     """the byte forms under which a string could be read off a message without any key"""
     forms = {s, escape(s), quoteattr(s)[1:-1], urllib.parse.quote(s), urllib.parse.quote_plus(s)}
